@@ -60,3 +60,21 @@ Print Assumptions C12_wf_preserved_by_update.
 Theorem C12_wf_preserved_by_insert : forall db c docs db', wf_db db -> docs_have_ids docs -> s_insert c docs db = Ok db' -> wf_db db'.
 Proof. intros; eapply wf_s_insert; eauto. Qed.
 Print Assumptions C12_wf_preserved_by_insert.
+
+(* ---- over whole histories (HistDom.v: every operation in the domain of the state it is applied to) ---- *)
+From Clover Require Import HistDom HistoryProofs.
+
+(* after any history in the domain: ids are unique within a collection and every document is stored under its own _id *)
+Theorem C12_ids_unique_after_any_history :
+  forall (ops : list op) (db : sdb) (s : kv),
+         hist_dom empty_db ops ->
+         s = final_store ops ->
+         wf_db db ->
+         R db s ->
+         forall (c : bytes) (sc : scoll),
+         assoc c db = Some sc ->
+         NoDup (map fst (sc_docs sc)) /\
+         (forall (id : bytes) (d : obj), assoc id (sc_docs sc) = Some d -> object_id d = id).
+Proof. exact history_ids_unique. Qed.
+Print Assumptions C12_ids_unique_after_any_history.
+
